@@ -252,6 +252,7 @@ func NewGrafanaNet(key string, matcher matcher.Matcher, cfg GrafanaNetConfig) (R
 
 // run manages incoming and outgoing data for a shard
 func (route *GrafanaNet) run(in chan []byte) {
+	defer route.wg.Done()
 	var metrics []*schema.MetricData
 	buffer := new(bytes.Buffer)
 
@@ -284,7 +285,6 @@ func (route *GrafanaNet) run(in chan []byte) {
 			return
 		}
 	}
-	route.wg.Done()
 }
 
 func (route *GrafanaNet) retryFlush(metrics []*schema.MetricData, buffer *bytes.Buffer) []*schema.MetricData {
@@ -459,7 +459,8 @@ func (route *GrafanaNet) Shutdown() error {
 	//conf := route.config.Load().(Config)
 
 	// trigger all of our queues to be flushed to the tsdb-gw
-	route.shutdown <- struct{}{}
+	// (closing the channel signals every worker, not just one of them)
+	close(route.shutdown)
 
 	// wait for all tsdb-gw writes to complete.
 	route.wg.Wait()
